@@ -33,18 +33,18 @@ KERNELS = {
     "is_zero_with_tolerance": ({"name": "is_zero_with_tolerance", "crate": "marginfi"}, ["lt(abs(p1),p2)"], "|x| < tolerance"),
     "is_positive_with_tolerance": ({"name": "is_positive_with_tolerance", "crate": "marginfi"}, ["gt(p1,p2)", "lt(p2,p1)"], "x > tolerance"),
     "remaining-deposit-capacity": ({"name": "get_remaining_deposit_capacity", "crate": "marginfi"},
-                                   ["phi(Result::Ok{0}|Result::Ok{%s}|Result::Ok{checked_to_num(checked_floor(checked_sub(checked_sub(phi(from_num(p1.config.deposit_limit)|scale_drift_deposit_limit(p1.config.deposit_limit,p1.mint_decimals)),get_asset_amount(p1,p1.total_asset_shares)),%s)))})" % (U64MAX, ONE)],
+                                   ["phi(Result::Ok{0}|Result::Ok{%s}|Result::Ok{checked_to_num(checked_floor(checked_sub(checked_sub(phi(p1.config.deposit_limit|scale_drift_deposit_limit(p1.config.deposit_limit,p1.mint_decimals)),get_asset_amount(p1,p1.total_asset_shares)),%s)))})" % (U64MAX, ONE)],
                                    "capacity = floor(limit - deposits - 1); 0 when full; u64::MAX when unlimited"),
     "pre-fee-amount": ({"name": "calculate_pre_fee_amount", "crate": "marginfi"}, ["phi(Option::Some{0}|Option::Some{p2}|checked_add(p1.maximum_fee,p2)|ok(ceil_div(checked_mul(10000,p2),checked_sub(10000,p1.transfer_fee_basis_points))))"],
                        "gross-up: ceil(post * 10000 / (10000 - bps)), capped by the maximum fee"),
     "post-fee-deposit": ({"name": "calculate_post_fee_spl_deposit_amount", "crate": "marginfi"}, ["phi(Result::Ok{checked_sub(p2,phi(0|calculate_epoch_fee(get_extension(unpack(try_borrow_data(p1))),p3,p2)))}|Result::Ok{p2})"],
                          "received = sent - Token-2022 epoch fee (sent for plain SPL mints)"),
-    "adjust_i64": ({"name": "adjust_i64", "crate": "marginfi_type_crate"}, ["checked_to_num(checked_mul(from_num(p1),p2))"], "raw * ratio, checked"),
-    "adjust_u64": ({"name": "adjust_u64", "crate": "marginfi_type_crate"}, ["checked_to_num(checked_mul(from_num(p1),p2))"], "raw * ratio, checked"),
+    "adjust_i64": ({"name": "adjust_i64", "crate": "marginfi_type_crate"}, ["checked_to_num(checked_mul(p1,p2))"], "raw * ratio, checked"),
+    "adjust_u64": ({"name": "adjust_u64", "crate": "marginfi_type_crate"}, ["checked_to_num(checked_mul(p1,p2))"], "raw * ratio, checked"),
     "adjust_i128": ({"name": "adjust_i128", "crate": "marginfi_type_crate"}, ["checked_to_num(checked_mul(i80_from_i128_checked(p1),p2))"], "raw * ratio, checked"),
-    "collateral_to_liquidity": ({"name": "collateral_to_liquidity_from_scaled", "crate": "marginfi_type_crate"}, ["phi(Option::None{}|checked_to_num(checked_div(checked_mul(from_num(p1),p2),p3)))", "checked_to_num(checked_div(checked_mul(from_num(p1),p2),p3))"],
+    "collateral_to_liquidity": ({"name": "collateral_to_liquidity_from_scaled", "crate": "marginfi_type_crate"}, ["phi(Option::None{}|checked_to_num(checked_div(checked_mul(p1,p2),p3)))", "checked_to_num(checked_div(checked_mul(p1,p2),p3))"],
                                 "liquidity = collateral * total_liq / total_col (floor)"),
-    "liquidity_to_collateral": ({"name": "liquidity_to_collateral_from_scaled", "crate": "marginfi_type_crate"}, ["phi(Option::None{}|checked_to_num(checked_div(checked_mul(from_num(p1),p3),p2)))", "checked_to_num(checked_div(checked_mul(from_num(p1),p3),p2))"],
+    "liquidity_to_collateral": ({"name": "liquidity_to_collateral_from_scaled", "crate": "marginfi_type_crate"}, ["phi(Option::None{}|checked_to_num(checked_div(checked_mul(p1,p3),p2)))", "checked_to_num(checked_div(checked_mul(p1,p3),p2))"],
                                 "collateral = liquidity * total_col / total_liq (floor)"),
     "drift-withdraw-token-amount": ({"name": "get_withdraw_token_amount", "crate": "drift_mocks"}, ["Result::Ok{checked_div(checked_mul(from_le_bytes(p1.cumulative_deposit_interest),p2),get_precision_increase(p1.decimals))}"],
                                     "tokens = scaled * cumulative_deposit_interest / precision_increase (floor)"),
@@ -97,8 +97,8 @@ LEAVES = {
                               "lt(p2,%s) & ne(0,%s) => Result::Ok{0} | p1.asset_share_value := %s" % (TOT, ASV, ASV)]],
                             "loss >= total deposits: share value 0 and kill; otherwise share value = (total - loss) / shares, kill iff that is zero"),
     "drift.scale_deposit_limit": ({"name": "scale_drift_deposit_limit", "crate": "drift_mocks"},
-                                  [["eq(9,p2) => Result::Ok{from_num(p1)} | -", "le(9,p2) & ne(9,p2) => checked_div(from_num(p1),EXP_10_I80F48[sub(p2,9)]) | -", "lt(p2,9) & ne(9,p2) => checked_mul(EXP_10_I80F48[sub(9,p2)],from_num(p1)) | -"],
-                                   ["le(9,p2) => checked_div(from_num(p1),EXP_10_I80F48[sub(p2,9)]) | -", "lt(p2,9) => checked_mul(EXP_10_I80F48[sub(9,p2)],from_num(p1)) | -"]],
+                                  [["eq(9,p2) => Result::Ok{p1} | -", "le(9,p2) & ne(9,p2) => checked_div(p1,EXP_10_I80F48[sub(p2,9)]) | -", "lt(p2,9) & ne(9,p2) => checked_mul(EXP_10_I80F48[sub(9,p2)],p1) | -"],
+                                   ["le(9,p2) => checked_div(p1,EXP_10_I80F48[sub(p2,9)]) | -", "lt(p2,9) => checked_mul(EXP_10_I80F48[sub(9,p2)],p1) | -"]],
                                   "native deposit limit -> Drift 9-decimal units: * 10^(9-d) for d < 9, / 10^(d-9) for d > 9, unchanged for d = 9"),
     "general.is_integration_asset_tag": ({"name": "is_integration_asset_tag", "crate": "marginfi"}, [["p1 == 3 => 1 | -", "p1 == 4 => 1 | -", "p1 == 5 => 1 | -", "p1 notin [3, 4, 5] => 0 | -"]],
                                          "integration tags are exactly Kamino (3), Drift (4), Solend (5)"),
